@@ -7,6 +7,7 @@ from conda_content_trust import authentication as A
 
 from vlib import cfgunit, configrun, gen_deleg, gen_json as G, ref_schema, ref_verify as RV, related
 from vlib.runner import Unit, Violation
+from vlib import clicheck as _clicheck
 from vlib import threaded as _threaded
 from vlib import interfere as _interfere, interrupt as _interrupt
 
@@ -134,4 +135,6 @@ UNITS = [
     _interfere.unit_after(PROPERTY, 'delegation', quick=150, thorough=6000),
     _interrupt.unit_interrupted(PROPERTY, 'delegation', quick=12, thorough=300, max_points=50, shards_quick=12),
     _threaded.unit_threads(PROPERTY),
+    _clicheck.unit_cli(),
+    cfgunit.unit_under_clocks(PROPERTY, 'delegation'),
 ]
